@@ -370,6 +370,39 @@ def one_append_per_column(rep):
                   f"`{flag}` is changed inside the loop over iterations: variables saved only "
                   "at later iterations are not discovered and their column is missing",
                   node=inside[0] if inside else loop)
+    # the list of columns iterated for the appends holds each name once
+    inits = [a for a in assignments_to(fn, "var") if isinstance(a, ast.Assign)
+             and loop not in ancestors(a)]
+    ok_init = bool(inits) and all(unparse(a.value).startswith(("list(set(", "sorted(set("))
+                                  for a in inits)
+    rep.check(ok_init, "column-shape", key + "::unique-columns::init",
+              "the list of variables to read is not de-duplicated: a name listed twice (e.g. a "
+              "tensor together with one of its components) receives two entries per iteration "
+              "and every later row is misaligned: "
+              + "; ".join(norm_src(a)[:60] for a in inits), node=inits[0] if inits else fn)
+    for n in ast.walk(fn):
+        if isinstance(n, ast.AugAssign) and unparse(n.target) == "var":
+            guarded = any(isinstance(a, ast.If) and "not in var" in unparse(a.test)
+                          for a in ancestors(n))
+            blk = None
+            par = getattr(n, "_parent", None)
+            while par is not None and blk is None:
+                for field in ("body", "orelse"):
+                    b = getattr(par, field, None)
+                    if isinstance(b, list) and any(n is x or n in list(ast.walk(x))
+                                                   for x in b):
+                        later = False
+                        for x in b:
+                            if later and norm_src(x).startswith("var = list(set(var))"):
+                                blk = x
+                            if n is x or n in list(ast.walk(x)):
+                                later = True
+                par = getattr(par, "_parent", None)
+            rep.check(guarded or blk is not None, "column-shape",
+                      key + f"::unique-columns::{norm_src(n)[:30]}",
+                      f"`{norm_src(n)[:50]}` can add a name that is already listed (it is neither "
+                      "guarded by `not in var` nor followed by a de-duplication): that column "
+                      "gets two entries per iteration", node=n)
     top = [st for st in loop.body if isinstance(st, ast.If)]
     ok = False
     why = "per-iteration body is not `if not exists: ... else: ...`"
